@@ -108,7 +108,7 @@ def rule_typename_same_type(ctx):
     return obs
 
 
-@rule('VISITED-DISCIPLINE', 'REACH-KINDS', 'DOUBLE-DESCENT')
+@rule('VISITED-DISCIPLINE', 'REACH-KINDS', 'DOUBLE-DESCENT', 'REACH-INPUT')
 def rule_traversals(ctx):
     obs = []
     cg = callgraph(ctx)
@@ -168,6 +168,51 @@ def rule_traversals(ctx):
                                        n.get('sp', ''), 'nodes are visited repeatedly or the search stops one level deep: longer cycles are missed'))
                     else:
                         obs.append(ok('VISITED-DISCIPLINE', inst, 'visited set records the node being visited (%s)' % P.show(t, 0, 2)[:60], n.get('sp', '')))
+            # ---- REACH-INPUT: a recursive walk over an input type looks at every member ------------
+            if (fn.d.get('impl_self') or '').endswith('schema::StoredInputType'):
+                def pipeline_root(e_, hops=0):
+                    while e_ is not None and hops < 12:
+                        hops += 1
+                        k_ = e_.get('k')
+                        if k_ == 'mcall':
+                            e_ = e_['recv']
+                        elif k_ in ('ref', 'wrap', 'unary', 'cast'):
+                            e_ = e_.get('e')
+                        elif k_ == 'path' and e_['res'].get('r') == 'local':
+                            srcs = fn.binds.get(e_['res']['hid'], [])
+                            if len(srcs) == 1 and srcs[0][0] == 'expr':
+                                e_ = srcs[0][1]
+                            else:
+                                return None
+                        elif k_ == 'field':
+                            return e_ if e_['name'] == 'fields' and e_.get('adt', '').endswith('StoredInputType') else None
+                        else:
+                            return None
+                    return None
+                POSITIONAL = {'take', 'skip', 'take_while', 'skip_while', 'step_by', 'nth', 'last', 'first', 'dedup', 'dedup_by', 'dedup_by_key', 'max_by_key', 'min_by_key',
+                              'values', 'keys', 'into_values', 'into_keys', 'split_first', 'split_last', 'get', 'pop', 'truncate'}
+                PRED = {'filter', 'filter_map', 'find', 'find_map', 'position'}
+                meths = []
+                for n in fn.walk(lambda x: x['k'] == 'mcall'):
+                    if pipeline_root(n['recv']) is not None:
+                        m_ = n['method']
+                        if m_ == 'collect' and any(x in n.get('ty', '') for x in ('BTreeMap', 'HashMap', 'BTreeSet', 'HashSet')):
+                            m_ = 'collect-into-keyed'
+                        meths.append(m_)
+                loops_ = [l for l in fn.walk(lambda x: x['k'] == 'for') if pipeline_root(l['iter']) is not None]
+                inst = '%s/members' % short(fn.path)
+                if not meths and not loops_:
+                    obs.append(undecided('REACH-INPUT', inst, 'the walk over the members of the input type was not recognised', fn.loc))
+                else:
+                    narrowing = sorted(set(meths) & (POSITIONAL | {'collect-into-keyed'}))
+                    preds = sorted(set(meths) & PRED)
+                    if narrowing:
+                        obs.append(bad('REACH-INPUT', inst, 'the member list is narrowed by %s before it is searched' % narrowing, fn.loc,
+                                       'a member that closes a cycle without indirection is skipped: the type is not boxed (E0072)'))
+                    elif preds:
+                        obs.append(undecided('REACH-INPUT', inst, 'the member list is filtered by a predicate (%s) that is not decided here' % preds, fn.loc))
+                    else:
+                        obs.append(ok('REACH-INPUT', inst, 'every member of the input type is examined (pipeline: %s)' % sorted(set(meths)), fn.loc))
             # ---- DOUBLE-DESCENT ----------------------------------------------------------------
             keyed = []
             for rc in rec_calls:
@@ -250,7 +295,7 @@ def rule_scalar_builtin(ctx):
     return obs
 
 
-@rule('DEPR-ORIGIN')
+@rule('DEPR-ORIGIN', 'ALIAS-KEY')
 def rule_depr_origin(ctx):
     """every named response field carries its own schema field's deprecation; spreads carry none"""
     obs = []
@@ -278,8 +323,33 @@ def rule_depr_origin(ctx):
                 obs.append(ok('DEPR-ORIGIN', inst, 'spread fields are never deprecated', node.get('sp', '')))
             else:
                 obs.append(bad('DEPR-ORIGIN', inst, 'a fragment-spread field carries a deprecation', node.get('sp', ''), 'non-deprecated positions are marked / omitted'))
-    named_n = sum(1 for o in obs if '/named[' in o.instance)
-    spread_n = sum(1 for o in obs if o.instance.endswith('/spread'))
+    # ALIAS-KEY: the JSON key (graphql_name) and the Rust field name of every named field derive from the same
+    # `alias.unwrap_or(schema name)`: the server answers under the alias when there is one
+    for fn, node in ctx.prog.aggregates_norm.get('graphql_client_codegen::codegen::selection::ExpandedField', []):
+        f = {x['name']: x['e'] for x in node['fields']}
+        if 'graphql_name' not in f or 'rust_name' not in f:
+            continue
+        senv = H.sym_env(fn)
+        g = ctx.pv.eval(fn, f['graphql_name'], senv, 0)
+        if g[0] == 'none':
+            continue
+        r_ = ctx.pv.eval(fn, f['rust_name'], senv, 0)
+        ty = ctx.pv.eval(fn, f['field_type'], senv, 0) if 'field_type' in f else ('unit',)
+        sig = 'named[%s]' % ('+'.join(sorted(x for x in TM.fields_in(ty) if x.startswith('Stored') and x.endswith('.name'))) or 'object')
+        inst = '%s/%s' % (short(fn.path), sig)
+        g0 = TM.strip_bases(g)
+        want_shape = g0[0] == 'orelse' and 'SelectedField.alias' in TM.fields_in(g0[1]) and 'StoredField.name' in TM.fields_in(g0[2]) and not TM.consts_in(g0)
+        same = any(TM.strip_bases(s_) == g0 for s_ in P.subterms(r_))
+        xf_g = {x for _, xs in TM.paths(g) for x in xs}
+        if want_shape and same and not xf_g:
+            obs.append(ok('ALIAS-KEY', inst, 'JSON key = alias, or the schema field name when there is no alias; the Rust name derives from the same value', node.get('sp', '')))
+        else:
+            obs.append(bad('ALIAS-KEY', inst, 'the JSON key of this field is %s (Rust name from %s)' % (P.show(g, 0, 4)[:90], P.show(r_, 0, 4)[:70]), node.get('sp', ''),
+                           'an aliased field of this kind is read from the wrong key: missing field / silently None'))
+    if sum(1 for o in obs if o.rule == 'ALIAS-KEY') < 3:
+        obs.append(bad('ALIAS-KEY', 'floor', 'anchor-missing: expected >= 3 named-field constructions of ExpandedField'))
+    named_n = sum(1 for o in obs if '/named[' in o.instance and o.rule == 'DEPR-ORIGIN')
+    spread_n = sum(1 for o in obs if o.instance.endswith('/spread') and o.rule == 'DEPR-ORIGIN')
     if named_n < 3 or spread_n < 1:
         obs.append(bad('DEPR-ORIGIN', 'floor', 'anchor-missing: expected >= 3 named-field and >= 1 spread-field constructions of ExpandedField, found %d/%d' % (named_n, spread_n)))
     return obs
